@@ -52,8 +52,12 @@ TypeEdits ==
 
 TypeClass(x) == IF Affects(x.a, x.b) THEN "affecting" ELSE "free"
 
+\* computed fields that mention named types which nothing else in the protocol uses (cast targets, type patterns): computed fields
+\* are not part of the encoding, so neither they nor the types only they mention may show in the schema
+ComputedFieldEdits == {"add_computed_field_cast_to_alias", "add_computed_field_switch_pattern"}
 DefClass(e) ==
-  CASE e \in {"add_comments", "comments_everywhere", "change_comments", "reorder_definitions", "add_unused_type", "add_computed_field", "change_computed_field",
+  CASE e \in ComputedFieldEdits -> "neutral"
+    [] e \in {"add_comments", "comments_everywhere", "change_comments", "reorder_definitions", "add_unused_type", "add_computed_field", "change_computed_field",
               "add_unrelated_protocol", "split_files", "identity"} -> "neutral"
     [] e \in {"add_optional_field", "remove_optional_field", "reorder_fields", "add_required_field", "remove_required_field",
               "add_stream_step", "add_vector_step", "add_optional_step", "remove_step", "reorder_steps", "rename_step", "rename_field",
@@ -61,7 +65,7 @@ DefClass(e) ==
               "generic_add_parameter", "generic_remove_parameter", "change_generic_argument",
               "imported_type_field_type", "imported_clashing_type_field_type", "local_clashing_type_field_type"} -> "affecting"
     [] OTHER -> "free"
-DefEdits == {"add_comments", "comments_everywhere", "change_comments", "imported_type_field_type", "imported_clashing_type_field_type",
+DefEdits == ComputedFieldEdits \cup {"add_comments", "comments_everywhere", "change_comments", "imported_type_field_type", "imported_clashing_type_field_type",
              "local_clashing_type_field_type", "reorder_definitions", "add_unused_type", "add_computed_field", "change_computed_field", "add_unrelated_protocol",
              "split_files", "identity", "add_optional_field", "remove_optional_field", "reorder_fields", "add_required_field",
              "remove_required_field", "add_stream_step", "add_vector_step", "add_optional_step", "remove_step", "reorder_steps", "rename_step",
